@@ -252,7 +252,11 @@ def d4(cx: Cx, ob: Ob) -> None:
         ob.site(f"{where(fn, ev.line)} {fn.qualname}", f"[{show(key)[:50]}].add({show(val)[:40]})")
         parts = concat_parts(key)
         R = parts[0][1] if parts and len(parts) == 2 and op(parts[0]) == "item" else None
-        present = any(g.kind == "guard" and g.a == ("cmp", "in", d, uri) and g.b is True for g in ctx.guards)
+        present = any(g.kind == "guard" and g.a == ("cmp", "in", d, uri) and g.b is True for g in ctx.guards) or any(
+            # the middle part of rpartition is truthy exactly where the delimiter occurs
+            g.kind == "guard" and g.b is True and op(g.a) == "item" and is_const(g.a[2], 1) and callee_name(g.a[1]) == "rpartition" and op(g.a[1][1]) == "attr" and g.a[1][1][1] == uri and g.a[1][2] == (d,)
+            for g in ctx.guards
+        )
         alt = None
         if parts and len(parts) == 2 and all(op(x) == "item" for x in parts) and parts[0][1] == parts[1][1] and is_const(parts[0][2], 0) and is_const(parts[1][2], 1) and callee_name(parts[0][1]) == "rpartition" and present:
             # head + middle of rpartition: the middle IS the delimiter where the delimiter occurs
@@ -288,7 +292,10 @@ def d4(cx: Cx, ob: Ob) -> None:
             ob.violate(fn.qualname, where(fn, ev.line), "the tail is not required to be alphanumeric", detail="isalnum")
         if ctx.path.out != ("break",):
             ob.violate(fn.qualname, where(fn, ev.line), "after a successful split the remaining delimiters are still tried: one URI contributes to several URI prefixes", detail="no-break")
-        if d_lp.b not in (("param", "delimiters"), ("gconst", D, "DEFAULT_DELIMITERS")) and not (op(d_lp.b) == "or"):
+        from ..rules import _strip_views
+
+        dsrc = _strip_views(d_lp.b)
+        if dsrc not in (("param", "delimiters"), ("gconst", D, "DEFAULT_DELIMITERS")) and not (op(dsrc) == "or"):
             ob.violate(fn.qualname, where(fn, d_lp.line), f"delimiters are tried in the order of `{show(d_lp.b)[:40]}`, not the given order", detail="delimiter-order")
     if not found:
         ob.undecide("no keyed add into the accumulator found")
